@@ -5,7 +5,9 @@ Four components:
                turn-by-turn on the virtual loop, reachability histories with virtual minutes of back-off;
   respool      the real ResurrectorSink over the real WatermarkPoolSink and the real serial Thrift
                transport on fake sockets (harness/c09pool.py): the fault signal's way
-               transport -> pool -> resurrector (finding F5);
+               transport -> pool -> resurrector (finding F5), for the pool configurations
+               min_watermark 0 / 1 / 2 x max_watermark 1 / 2 / unbounded (with min_watermark = 0 the pool
+               closes the probe connection of Open() / of a reconnection again and every request opens its own);
   heap9        the real HeapBalancerSink over harness channels (harness/c09heap.py, driver harness/heaprun.py):
                the balancer's down list — a member whose channel is Open again is marked up by the next
                dispatch, whatever else is listed and in whatever order members went down and came back;
@@ -55,11 +57,16 @@ ASSUMPTIONS = ['resmux: observations are taken at quiescence (one stimulus, then
                'table computed by the real code: it must grow until capped; configurations with initial_wait <= 1 s are outside the claim)',
                'float arithmetic of the back-off is not modelled: waits are compared in integer microseconds',
                'a channel is not re-opened after Close() (the balancers create a new sink instead)',
+               'respool: max_watermark >= 1 (with 0 the pool queues every request for ever); requests are issued one at a '
+               'time, so the pool never counts more than one transport (the theorems hold for every min_watermark and '
+               'every max_watermark >= 1; the check runs min_watermark 0/1/2 x max_watermark 1/2/Int.MaxValue)',
                'a connect that hangs for ever blocks the retry greenlet for ever (no connect timeout in this layer); '
                'the recovery bound is stated from the later of: endpoint reachable, last pending connect resolved',
                'heap9: channel states change only between balancer calls (gevent is cooperative); fewer than 2^31-1 '
                'dispatches in the history (theorem hypothesis, part of the reported wf)']
-RULE = ('scripts drawn from the seeded generators of the four components; distinct = distinct (cfg, op list); '
+RULE = ('scripts drawn from the seeded generators of the four components; distinct = distinct (cfg, op list); respool: the '
+        'pool configuration (min_watermark 0/1/2 x max_watermark 1/2/unbounded) is part of cfg, half of the generated '
+        'scripts run min_watermark = 0; '
         'non-trivial = the endpoint went down at least once (fault delivered or connect refused) and at least one '
         'of: a retry, a hang, a close while down, a stale fault, recovery; for heap9: a member was marked down and '
         'at least one of: a member marked up again, two members listed at once, a listed member removed; for resmux: the '
@@ -145,7 +152,8 @@ def exhaustive(tier, shard, shards):
     """every sequence of outcomes of up to R consecutive reconnection attempts (refused, accepted,
     hanging then refused, hanging then accepted), the reachability flipping 1 ms before the attempt or
     long before it, with a request probing after every step, optionally closed at the end; and the same
-    (refused / accepted) for the resurrector over the real pool and transport"""
+    (refused / accepted) for the resurrector over the real pool and transport, for each of the nine pool
+    configurations (min_watermark 0/1/2 x max_watermark 1/2/unbounded)"""
     import itertools
     rmax = (THOROUGH if tier == 'thorough' else QUICK)['exhaustive_r']
     k = 0
@@ -172,22 +180,27 @@ def exhaustive(tier, shard, shards):
                     if close:
                         ops += [['close'], ['turn'], ['tick', 200000], ['req']]
                     yield {'kind': 'res', 'cfg': [5, 60, 1.2], 'ops': ops}
+        import c09pool
         for outs in itertools.product(['down', 'up'], repeat=r):
             for close in (False, True):
                 for first in ('down', 'up'):
-                    k += 1
-                    if k % shards != shard:
-                        continue
-                    ops = [['reach', first], ['open'], ['req', 'reply']]
-                    if first == 'up':
-                        ops += [['req', 'eof'], ['req', 'reply']]
-                    for i, o in enumerate(outs):
-                        ops += [['reach', o], ['wake'], ['req', 'reply']]
-                        if o == 'up' and i + 1 < len(outs):
-                            ops += [['req', 'eof'], ['req', 'reply']]
-                    if close:
-                        ops += [['close'], ['tick', 200000]]
-                    yield {'kind': 'pool', 'cfg': [5, 60, 1.2], 'ops': ops}
+                    for wm in c09pool.WMS:
+                        k += 1
+                        if k % shards != shard:
+                            continue
+                        ops = [['reach', first], ['open'], ['req', 'reply']]
+                        if first == 'up':
+                            # the connection breaks under a request / (alternating) the endpoint goes away between
+                            # requests: noticed by the request's own connect when the pool keeps no connection
+                            ops += ([['req', 'eof']] if len(outs) % 2 else [['reach', 'down'], ['req', 'reply']])
+                            ops += [['req', 'reply']]
+                        for i, o in enumerate(outs):
+                            ops += [['reach', o], ['wake'], ['req', 'reply'], ['req', 'reply']]
+                            if o == 'up' and i + 1 < len(outs):
+                                ops += [['req', 'eof'], ['req', 'reply']]
+                        if close:
+                            ops += [['close'], ['tick', 200000]]
+                        yield {'kind': 'pool', 'cfg': [5, 60, 1.2], 'wm': wm, 'ops': ops}
     # the balancer hop: every order of going down x every order of coming back (harness/c09heap.py)
     import c09heap
     for s in c09heap.exhaustive(tier, shard, shards):
